@@ -1765,6 +1765,13 @@ func (fc *FC) freeVar(fv *ssa.FreeVar) *RF {
 			}
 		}
 		if len(stores) == 1 && !other {
+			// one store statement, but executed once per iteration of a loop the cell
+			// lives outside of: the closures created in that loop share the cell and
+			// see its last value when they run (`var pow float64; for … { pow = …;
+			// terms[d] = func… pow … }`), not the value stored when they were created
+			if l := pfc.Ctx.LoopOf(stores[0].Block()); l != nil && !l.Body[b.Block().Index] {
+				return opaque
+			}
 			return pfc.Val(stores[0].Val)
 		}
 		if !other && len(stores) > 1 {
